@@ -197,6 +197,10 @@ class SequenceGenerator:
     MIN_SEQUENCE = 0x00000001
     MAX_SEQUENCE = 0xffffffff
 
+    # shared fallback for subclasses that do not call `__init__`; private and
+    # re-entrant so that it cannot clash with the locking of a subclass
+    __lock = threading.RLock()
+
     def __init__(self, include_now: int = None):
         """Start a new sequence generator.
 
@@ -207,7 +211,7 @@ class SequenceGenerator:
                 initialised to a random value.
 
         """
-        self._busy_lock = threading.Lock()
+        self.__lock = threading.RLock()
         if include_now is not None:
             self._sequence = int((include_now << 20) | random.randint(self.MIN_SEQUENCE, 0x000fffff)) & self.MAX_SEQUENCE
         else:
@@ -220,7 +224,7 @@ class SequenceGenerator:
 
     def next_sequence(self) -> int:
         """Increase and then return current sequence."""
-        with self._busy_lock:
+        with self.__lock:
             if self._sequence == self.MAX_SEQUENCE:
                 self._sequence = self.MIN_SEQUENCE
             else:
